@@ -412,7 +412,15 @@ func TestC19_Cohort(t *testing.T) {
 					yKind = 1
 				}
 			}
+			if nx := a.X.Num(); nx.Class == ref.Finite && nx.IsZero() && (op.name == "Min" || op.name == "Max" || op.name == "Compare") && ir(t, 0, 1, "zeroPair") == 0 {
+				// signed zeros in different encodings: the tie-break of Min/Max is the only place their signs matter
+				a.Y = genZero(t) // the package's own zero in a quarter of the draws: the relation needs one pair in that form
+				a.Y.Hi = a.Y.Hi&^(1<<63) | (^a.X.Hi)&(1<<63)
+				a.Y2 = genCohortMember(t, a.Y)
+				yKind = -1
+			}
 			switch yKind {
+			case -1:
 			case 0:
 				a.Y = genCohortMember(t, a.X) // same value: cancellation, equality arms
 			case 1:
@@ -469,6 +477,16 @@ func TestC19_Canonical(t *testing.T) {
 		a := genCohortRich(t)
 		if ir(t, 0, 3, "anyA") == 0 {
 			a = genAny(t)
+		}
+		if ir(t, 0, 9, "topBand") == 0 {
+			// coefficients next to the first k digits of the largest coefficient, at exponents on either side of
+			// zero: whether Canonical can take one more step towards exponent zero is decided within 2^64 of
+			// Cmax/10^j
+			c, _ := topBandLead(t, 35)
+			a = DFin(genSign(t), c, ir(t, -40, 40, "e"))
+			if rapid.Bool().Draw(t, "anyExp") {
+				a = DFin(genSign(t), c, genExp(t))
+			}
 		}
 		var b D
 		switch ir(t, 0, 3, "bKind") {
